@@ -617,7 +617,7 @@ class SymtableCodeGen(AbstractCodeGen):
         if self._postponedSyms:
             raise error.PySmiSemanticError('Unknown parents for symbols: %s' % ', '.join(self._postponedSyms))
 
-        for sym in self._parentOids:
+        for sym in sorted(self._parentOids):
             if sym not in self._out and sym not in self._importMap:
                 raise error.PySmiSemanticError('Unknown parent symbol: %s' % sym)
 
